@@ -16,6 +16,7 @@ func TestReplay_Front(t *testing.T) {
 	frontReplay("TestProp_C18_Reload", runC18)
 	frontReplay("TestProp_C01_ProcessCrash", runC01Proc)
 	frontReplay("TestProp_C03_Concurrent", runC03C)
+	frontReplay("TestProp_C14_HTTP", runC14)
 	frontReplay("TestProp_C18_FileCrash", runC18File)
 	frontReplay("TestProp_C18_MgmtRollback", runC18Mgmt)
 	frontReplay("TestProp_C12_RateLimit", runC12RL)
